@@ -20,6 +20,7 @@ RULE = (
     "AlignedMTL(u)(J) = sum u_i r_i, default = mean of r_i; zero matrix -> exact zero vector. Excluded (counted): "
     "IMTL-G inputs whose float64 reference has |sum v| / sum|v| < 1e-3. Non-trivial = m >= 2 and the rows are not "
     "already mutually orthogonal with equal norms. Distinct = distinct (J, pref, dtype, aggregator)."
+    " One case in three is widened by 90..140 000 Gaussian or zero columns (an all-zero matrix only by zero columns)."
 )
 ASSUMPTIONS = ["tolerance K (m+n) eps(dtype) cond(J)^2 with K = 50 (Gramian-based pinv/eigh lose cond^2)"]
 LEVEL_TEXT = "Generated-input search against the aggregators' defining equations on well-conditioned matrices. No proof."
